@@ -60,6 +60,7 @@ for _l in MID_LAYOUTS:
     UNITS['layoutmid_' + _l] = dict(fragments=PRE + T('lemmas.rs', 'numth.rs', 'transcript.rs', 'pow.rs', 'commitment.rs', 'fri.rs', 'air.rs'),
                                     features={'std', 'keccak_160_lsb', 'keccak', 'stone5', 'mid_' + _l}, threads=4,
                                     only_modules=['swiftness_air::layout::' + _l])
+UNITS['layoutmid_dynamic']['rlimit'] = 60   # validate_public_input of the dynamic layout: one query with about 60 exits (uses about a third of this)
 
 # property -> units per tier, claim text for the manifest
 PROPS = {
